@@ -27,6 +27,8 @@ type c06faultFS struct {
 	writes, reads       int
 	failRemove          bool // Remove is refused (a read-only source)
 	removes             int
+	failOpen            string // Open of this name is refused although Stat answers (no read permission, or a fault in between)
+	opensRefused        int
 }
 
 func (f *c06faultFS) Remove(name string) error {
@@ -38,6 +40,10 @@ func (f *c06faultFS) Remove(name string) error {
 }
 
 func (f *c06faultFS) Open(name string) (hackpadfs.File, error) {
+	if f.failOpen != "" && name == f.failOpen {
+		f.opensRefused++
+		return nil, &hackpadfs.PathError{Op: "open", Path: name, Err: errC06Fault}
+	}
 	file, err := f.FS.Open(name)
 	if err != nil || f.failRead < 0 {
 		return file, err
@@ -102,6 +108,7 @@ func c06faultCases() []c06faultCase {
 					}
 				}
 				cs = append(cs, c06faultCase{Src: src, Dst: dst, DstExists: ex, Side: "remove-source"})
+				cs = append(cs, c06faultCase{Src: src, Dst: dst, DstExists: ex, Side: "open-source"})
 				// no fault: moved with the same bytes and the whole mode, special bits included
 				for _, m := range []fs.FileMode{0o640, fs.ModeSticky | 0o644, fs.ModeSetuid | 0o755, fs.ModeSetgid | fs.ModeSticky | 0o700, 0} {
 					cs = append(cs, c06faultCase{Src: src, Dst: dst, DstExists: ex, Side: "none", Mode: uint32(m) | 1<<31})
@@ -126,6 +133,8 @@ func c06crossfault(env *core.Env, cs c06case, idx int, res *core.CaseResult) {
 	case "short-write":
 		dstFS.failWrite, dstFS.short = fc.At, true
 	case "none":
+	case "open-source":
+		srcFS.failOpen = fc.Src // Stat of the source answers, opening it fails
 	case "remove-source":
 		srcFS.failRemove = true // the copy succeeds, then the source cannot be removed
 	default:
@@ -147,6 +156,10 @@ func c06crossfault(env *core.Env, cs c06case, idx int, res *core.CaseResult) {
 		_ = hackpadfs.WriteFullFile(srcIn, fc.Dst, []byte("bystander at the destination's relative name"), 0o600)
 	}
 	_ = hackpadfs.WriteFullFile(dstIn, "neighbour", []byte("n"), 0o644)
+	// files of the destination file system whose names look like the library's own temporary names
+	_ = hackpadfs.WriteFullFile(dstIn, fc.Dst+".rename-0", []byte("not yours 0"), 0o600)
+	_ = hackpadfs.WriteFullFile(dstIn, fc.Dst+".rename-1", []byte("not yours 1"), 0o600)
+	_ = hackpadfs.WriteFullFile(dstIn, fc.Dst+".tmp", []byte("not yours tmp"), 0o600)
 	if fc.DstExists && fc.Src != fc.Dst {
 		_ = hackpadfs.WriteFullFile(dstIn, fc.Dst, []byte("previous contents of the destination"), 0o604)
 	} else if fc.DstExists {
@@ -176,7 +189,7 @@ func c06crossfault(env *core.Env, cs c06case, idx int, res *core.CaseResult) {
 	st := fsx.Step{K: "Rename", P: "a/" + fc.Src, P2: "b/" + fc.Dst}
 	var hs fsx.Handles
 	r := fsx.Exec(m, st, &hs, nil)
-	fired := dstFS.writes > dstFS.failWrite && dstFS.failWrite >= 0 || srcFS.reads > srcFS.failRead && srcFS.failRead >= 0 || srcFS.removes > 0
+	fired := dstFS.writes > dstFS.failWrite && dstFS.failWrite >= 0 || srcFS.reads > srcFS.failRead && srcFS.failRead >= 0 || srcFS.removes > 0 || srcFS.opensRefused > 0
 	res.Count("crossfault_cases", 1)
 	sig := func(what string) string {
 		return fmt.Sprintf("C06|Rename|cross-mount,copy-fault=%s,%s|%s", fc.Side, dk, what)
